@@ -863,12 +863,24 @@ impl Xot {
     pub fn unresolved_namespaces(&self, node: Node) -> Vec<NamespaceId> {
         let mut namespaces = Vec::new();
         let mut fullname_serializer = FullnameSerializer::new(self, vec![]);
+        // elements in no namespace that sit in the scope of a default
+        // namespace; the serializer undeclares the default namespace for
+        // those, so nothing below them is resolved by it
+        let mut undeclared_default = Vec::new();
         for edge in self.traverse(node) {
             match edge {
                 NodeEdge::Start(node) => {
                     let element = self.element(node);
                     if let Some(element) = element {
                         fullname_serializer.push(self.namespace_declarations(node));
+                        if self.namespace_for_name(element.name()) == self.no_namespace_id
+                            && fullname_serializer.has_default_namespace()
+                            && !self.namespaces(node).contains_key(self.empty_prefix_id)
+                        {
+                            fullname_serializer
+                                .push(vec![(self.empty_prefix_id, self.no_namespace_id)]);
+                            undeclared_default.push(node);
+                        }
                         let namespace_id = self.namespace_for_name(element.name());
                         if !fullname_serializer.is_namespace_known(namespace_id) {
                             namespaces.push(namespace_id);
@@ -888,6 +900,10 @@ impl Xot {
                 }
                 NodeEdge::End(node) => {
                     if self.is_element(node) {
+                        if undeclared_default.last() == Some(&node) {
+                            undeclared_default.pop();
+                            fullname_serializer.pop(true);
+                        }
                         fullname_serializer.pop(self.has_namespace_declarations(node));
                     }
                 }
